@@ -12,6 +12,7 @@ import Pxv.Driver.Bp
 import Pxv.Driver.Scope
 import Pxv.Driver.Life
 import Pxv.Driver.Rules
+import Pxv.Driver.Errors
 open Pxv.Driver
 
 def main (args : List String) : IO UInt32 := do
@@ -30,4 +31,5 @@ def main (args : List String) : IO UInt32 := do
   | ["scope"] => serve Pxv.Scope.handle; return 0
   | ["life"] => serve Pxv.Life.handle; return 0
   | ["rules"] => serve Pxv.Rules.handle; return 0
+  | ["errors"] => serve Pxv.Err.handle; return 0
   | _ => IO.eprintln "usage: pxmodel <model>"; return 2
